@@ -776,6 +776,17 @@ def cli_streams(rng, tier):
     fixed.append(bad + b'\n' + v() + b'\n')
     g = v(); fixed.append(g[:-2] + b'zz\n\x80' + g + b'\n')
     out += fixed
+    # long lines around the sizes a bounded reader would pick: noise, noise with a sentence at its end,
+    # a sentence behind a long tag block, a fragment pair split by a long line
+    f1, f2 = gen.fragment(rng, gen.armor(gen.message_bits(rng, 5))[0], 2, 2, 3)
+    for n in (255, 256, 257, 383, 384, 385, 511, 512, 1023, 1024, 1025, 4095, 4096, 4097, 8191, 8192, 8193, 16384, 65535, 65536, 65537):
+        a, b = v(), v()
+        out.append(a + b'\n' + b'x' * n + b'\n' + b + b'\n')
+        out.append(a + b'\n' + b'#' * (n - len(b)) + b + b'\n' + a + b'\n')
+        if n <= 8193:
+            out.append(b'\\' + b't' * n + b'\\' + a + b'\n' + b + b'\n')
+            out.append(f1 + b'\n' + b'#' * n + f2 + b'\n' + a + b'\n')
+            out.append(b'\x00' * n + b'\n' + a)
     for _ in range(scale(tier, 250, 5000)):
         n = rng.choice([1, 3, 10, 40])
         parts = []
